@@ -563,7 +563,7 @@ void HistSim::endOp(Judge& j, const Op& op, size_t ix) {
     if (hadFault || ovfNow)
       ds.leaky = true;  // a failed allocation (injected, or a capacity limit) may strand slots and strings
     relaxed = hadFault || ds.ovf || ovfNow;
-    if (opt.mode == "free" || opt.mode == "twin") {
+    if (opt.mode == "free" || opt.mode == "twin" || opt.mode == "enum") {
       if (ovfNow)
         violate("C19:spurious-overflow", "overflowed() became true although no allocation failed and no limit is near (op " +
                                              op.text().substr(0, 120) + ")");
@@ -655,7 +655,7 @@ void HistSim::checkAll(const Op& op, size_t ix, bool relaxedDoc, int relaxedIdx)
       }
       g_stats.c["states.hash_xor"] ^= mix64(rep.stateHash);
       count("inspect.checks");
-      if (!leaks && opt.replica == 0 && (opt.mode == "free" || opt.mode == "limit")) {
+      if (!leaks && opt.replica == 0 && (opt.mode == "free" || opt.mode == "limit" || opt.mode == "enum")) {
         // de-duplication: equal copied strings are stored once. Values created by the API from
         // MsgPackBinary/MsgPackExtension bypass the lookup, so each may have a node of its own.
         std::set<std::string> distinct;
